@@ -268,6 +268,9 @@ func GenDialogue(g *vh.Gen, c Cfg, pool []string, o Opts) []byte {
 	ntx := 1 + g.Intn(4)
 	if g.Chance(0.04) {
 		ntx = 9 + g.Intn(30) // a long-lived connection: whatever a session accumulates shows only after many transactions
+		if g.Chance(0.15) {
+			ntx = g.Pick2(64, 100, 129, 250)
+		}
 	}
 	for t := 0; t < ntx; t++ {
 		garbage()
@@ -289,7 +292,7 @@ func GenDialogue(g *vh.Gen, c Cfg, pool []string, o Opts) []byte {
 		garbage()
 		nr := g.Intn(5)
 		if g.Chance(0.03) {
-			nr = g.Pick2(8, 9, 16, 17, 33, 64) // recipient lists across the growth steps of a slice
+			nr = g.Pick2(8, 9, 16, 17, 33, 64, 129, 200, 201, 257) // recipient lists across the growth steps of a slice and the default limit
 		}
 		var tos []string
 		for i := 0; i < nr; i++ {
